@@ -139,6 +139,11 @@ const COQ_KEYWORDS: &[&str] = &[
     "as", "at", "cofix", "else", "end", "exists", "exists2", "fix", "for", "forall", "fun", "if", "IF", "in", "let",
     "match", "mod", "return", "Set", "Prop", "Type", "then", "using", "where", "with", "Ret", "Panic", "bind", "Ok",
     "Err", "Some", "None", "tt", "true", "false",
+    // constructors and functions of Coq's prelude / Sem.v that a Rust local could be named after: as a pattern variable
+    // such a name would be read as the constructor, as a `let` it would shadow what the generated code itself uses
+    "pair", "nil", "cons", "inl", "inr", "left", "right", "exist", "conj", "eq_refl", "xH", "xI", "xO", "Z0", "Zpos", "Zneg",
+    "O", "S", "I", "Eq", "Lt", "Gt", "fst", "snd", "negb", "andb", "orb", "chk", "chko", "of_bool", "to_u32", "to_i32", "to_i64",
+    "to_u16", "to_u8", "mkRange", "nat", "bool", "unit", "option", "list", "prod", "Z", "M", "Result",
 ];
 
 pub fn ident(s: &str) -> String {
